@@ -4,6 +4,7 @@ from contracts import decomp as D
 def extend_ext(ext):
     P.extend_ext(ext); D.extend_ext(ext)
 UNITS = [P.u_sample_space, P.u_feature_space, lambda: P.u_fit('auto'), lambda: P.u_fit('sample', precomputed=True), lambda: P.u_fit('feature')] + list(D.UNITS)
+EXTRA_MODULES = ['pcovutil']      # pcovr_covariance: what it computes (own numpy model)
 RT = True
 TRUSTED = ["matrix layer: ring laws of conformable real matrices, transposes, trace cyclicity, diagonal products; extensionality as a proof rule (entry-wise obligation, then equality)",
            "PCovR._decompose_truncated is under contract for the index bookkeeping (ARPACK output reversed consistently for values and both vector sets, svd_flip on both sides; randomized route passed through); assumed modular contracts (conformance-tested at run time): _decompose_full/_decompose_truncated return the leading-k spectral decomposition of the symmetric PSD matrix handed in (this IS the clause 'truncated solvers agree with the full solver': assumed, bounded check only); pcovr_covariance returns (C~, C^-1/2) with C^-1/2 symmetric and pinv(C^-1/2) C^-1/2 the projector on range(X^T X); np.linalg.lstsq(A,B)[0] = pinv(A) B; fitted regressor without intercept: coef_ = W^T, predict(X) = X W",
